@@ -17,7 +17,7 @@ TOOLS = os.path.join(VERIF, 'tools')
 # which theorem speaks about which kind of difference (used to explain a failed build)
 THEOREM_OF = dict(constant='constants_agree_%s', family='families_complete_%s', prototype='prototypes_agree_%s',
                   reference='prototypes_agree_%s', **{'prototype-cpp': 'prototypes_agree_cpp_types'}, export='declared_is_exported', **{'constant-dynamic': 'constants_agree_java_dynamic'}, version='versions_agree', duplicate='constants_agree_%s',
-                  struct='struct_layouts_agree_%s', **{'idl-common': 'idl_common_exact', 'binding-body': 'cython_bodies_bind_same_name',
+                  struct='struct_layouts_agree_%s', **{'struct-cpp': 'struct_members_agree_cpp', 'idl-common': 'idl_common_exact', 'binding-body': 'cython_bodies_bind_same_name',
                      'wrapper-binding': '%s_wrappers_bind_same_name', 'public-signature': 'pascal_public_signatures_agree', 'iface-impl': 'pascal_iface_matches_impl',
                      'idl-routine': 'idl_routines_agree', 'idl-sources': 'idl_sources_same', 'build-sources': 'library_sources_agree',
                      'libtool-version': 'libtool_versions_agree', 'swig-includeall': 'swig_reaches_all_headers'})
@@ -227,6 +227,11 @@ def _run(ctx, replay):
         if js['cpp_types']:
             p = js['cpp_types'][ctx.rng.randrange(len(js['cpp_types']))]
             samples.append(dict(set='cpp wrapper types', file=p['file'], line=p['line'], declares=p['text'], c_prototype=js['c']['prototypes'].get(p['cname'], {}).get('text')))
+        compared += len(js.get('cpp_members', [])); nontriv += len({(r['struct'], r['field']) for r in js.get('cpp_members', [])})
+        if js.get('cpp_members'):
+            r = js['cpp_members'][ctx.rng.randrange(len(js['cpp_members']))]
+            samples.append(dict(set='cpp value class members', file=r['file'], line=r['line'], declares='%s %s::%s' % (r['declared'], r['cls'], r['member']), c_struct=r['struct'], c_field=r['field'],
+                                c_field_type=next((t for n, t in next((st['fields'] for st in js['structs']['c'] if st['name'] == r['struct']), []) if n == r['field']), None)))
         compared += len(js['swig']['refs']) + len(js['cpp']['refs']) + len(js['versions']) + len(js['c']['public_functions'])
         nontriv += len(js['swig']['refs']) + len({r['text'] for r in js['cpp']['refs']}) + len(js['versions']) + len(js['c']['public_functions'])
         samples += [dict(version_statement=v) for v in js['versions'][:3]]
@@ -255,7 +260,7 @@ def _run(ctx, replay):
                idl_common=js['idl'] if js else None, java_loaded_at_runtime=dict(fields=js['java_dynamic'], feed=js.get('java_dynamic_feed'), observed_in_the_running_class=java_obs) if js else None,
                wrappers=js['wrappers'] if js else None, idl_glue_defined_but_not_registered=js['idl_routines']['defined_not_registered'] if js else None,
                library_build=dict(meson=len(js['build']['meson']), automake=len(js['build']['automake']), built=js['build']['built'], facts=js['build']['facts']) if js else None,
-               cpp_wrapper_types=js.get('cpp_types_info') if js else None, libtool=js['libtool'] if js else None, swig_invocations=js['swig_invocations'] if js else None)
+               cpp_wrapper_types=js.get('cpp_types_info') if js else None, cpp_value_classes=js.get('cpp_members_info') if js else None, libtool=js['libtool'] if js else None, swig_invocations=js['swig_invocations'] if js else None)
     core.write_evidence(ctx, 'proof', cov, len(new) + (1 if broken and not new else 0),
                         ['the bindings\' run-time behaviour (Fortran/Pascal/Python/Java/IDL compilers, SWIG) is not modelled: declarations are compared, not executed',
                          'Java constants without initialiser (ZMAX … R_E) are read at class-load time from the head of xraylib.dat, written by java/pr_data_java.c: covered statically (both ends lexed, table const_java_dynamic, '
